@@ -155,8 +155,9 @@ Print Assumptions C03_walkgetattr_fallback.
 
 (** for the 22 T-messages whose handler makes one backend call: the call of the model is the call of the
     handler's trace in gen/HandlerGen.v — receiver (the fid's File, or its parent's), method, argument
-    expressions (t.<Field>, the uid handed down by the Tu* wrapper or NoUID, refTarget.file, int(t.PID),
-    the entry's name read under the rename lock) *)
+    expressions (t.<Field>, the uid handed down by the Tu* wrapper or NoUID, the second fid's File, int(t.PID),
+    the entry's name read under the rename lock); read from the alpha-renamed traces, so that renaming a local
+    in handlers.go does not matter *)
 Theorem C03_handler_table : forall t fs, In t simple_handlers ->
   handler_calls (t, fs) = gen_handler_calls t fs.
 Proof. exact handler_table_generated. Qed.
@@ -164,7 +165,7 @@ Print Assumptions C03_handler_table.
 
 Theorem C03_handler_table_remove : forall fs,
   handler_calls ("tremove", fs) = (gen_handler_calls "tremove" fs ++ [mkbc "Close" (OnFid (fidof (fld "fid" fs))) []])%list /\
-  In "call:f.file.Close()" (events "fidRef.DecRef").
+  In "call:f.file.Close()" (raw_events "fidRef.DecRef").
 Proof. exact handler_table_remove. Qed.
 
 (** ReadAt/WriteAt: I/O split to fit msize.  For any run of C11's chunk (its requests satisfy [chunks_ok]:
@@ -181,18 +182,18 @@ Print Assumptions C03_io_split.
 
 (** the handlers with loops and branches: the backend calls / delegations / fid lookups in handlers.go are these *)
 Theorem C03_walk_handlers_events :
-  calls_and_delegations "twalk.handle" = ["delegate:doWalk(cs, ref, t.Names, false)"] /\
-  calls_and_delegations "twalkgetattr.handle" = ["delegate:doWalk(cs, ref, t.Names, true)"] /\
+  calls_and_delegations "twalk.handle" = ["delegate:doWalk(_v1, _v2, _v0.Names, false)"] /\
+  calls_and_delegations "twalkgetattr.handle" = ["delegate:doWalk(_v1, _v2, _v0.Names, true)"] /\
   calls_and_delegations "doWalk" =
-    ["delegate:walkOne(nil, ref.file, ref.pathNode, nil, getattr)";
-     "delegate:walkOne(qids, walkRef.file, walkRef.pathNode, names[i : i+1], true)"] /\
+    ["delegate:walkOne(nil, _v1.file, _v1.pathNode, nil, _v3)";
+     "delegate:walkOne(_v4, _v11.file, _v11.pathNode, _v2[_v12 : _v12+1], true)"] /\
   calls_and_delegations "walkOne" =
-    ["call:from.WalkGetAttr(names)"; "call:from.Walk(names)"; "call:sf.GetAttr(AttrMaskAll)"; "call:sf.GetAttr(AttrMaskAll)";
-     "call:sf.Close()"; "call:sf.Close()"] /\
-  calls_and_delegations "txattrwalk.handle" = ["call:ref.file.GetXattr(t.Name)"; "call:ref.file.ListXattrs()"] /\
+    ["call:<_v1>.WalkGetAttr(_v3)"; "call:<_v1>.Walk(_v3)"; "call:<_v7>.GetAttr(AttrMaskAll)"; "call:<_v7>.GetAttr(AttrMaskAll)";
+     "call:<_v7>.Close()"; "call:<_v7>.Close()"] /\
+  calls_and_delegations "txattrwalk.handle" = ["call:_v2.file.GetXattr(_v0.Name)"; "call:_v2.file.ListXattrs()"] /\
   calls_and_delegations "tattach.handle" =
-    ["call:attacher.Attach()"; "call:sf.GetAttr(AttrMaskAll)"; "delegate:doWalk(cs, root, names, false)"] /\
-  with_prefix "lookup:" (events "twalk.handle") = ["t.fid"] /\
-  with_prefix "lookup:" (events "twalkgetattr.handle") = ["t.fid"] /\
-  with_prefix "lookup:" (events "txattrwalk.handle") = ["t.fid"].
+    ["call:attacher.Attach()"; "call:<_v2>.GetAttr(AttrMaskAll)"; "delegate:doWalk(_v1, _v4, _v8, false)"] /\
+  with_prefix "lookup:" (events "twalk.handle") = ["_v0.fid=>_v2"] /\
+  with_prefix "lookup:" (events "twalkgetattr.handle") = ["_v0.fid=>_v2"] /\
+  with_prefix "lookup:" (events "txattrwalk.handle") = ["_v0.fid=>_v2"].
 Proof. exact walk_handlers_events. Qed.
